@@ -44,13 +44,15 @@ TRUSTED = [
 ]
 PARTIAL = ("'Two daemons ... always end with exactly one holding the original name and both announced' is validated by "
            "simulation (real daemon threads against each other over a grid of offsets and seeds, monitor c08_final), not "
-           "proved: the theorems are about the decision rules. tiebreaking itself has no facade entry; it is exercised "
-           "through the simulated daemon (competing probe queries). Findings in known/C08.json: a rename that makes the "
-           "first label longer than 63 bytes kills the daemon thread; goodbyes and direct SRV answers keep pre-rename "
-           "names; a renamed service whose name has an upper-case letter is looked up under the wrong key (it answers "
-           "for the name it gave up and does not defend the new one, three daemons can end with the same name); "
-           "conflicts are never detected for instance names with an escaped dot, and name_change would split such a name "
-           "inside the label")
+           "proved: the theorems are about the decision rules. Probe::tiebreaking has no facade entry; it is exercised "
+           "through the simulated daemon (competing probe queries). That chk_C08 accepts every run of the daemon model "
+           "outside the listed classes is validated (monitor on the model's own output), not proved. 'Still encodable' is "
+           "proved only as a refutation (it is false). Findings (known/C08.json): a rename that makes the first label longer "
+           "than 63 bytes kills the daemon thread; goodbyes and direct SRV answers keep pre-rename names; a renamed service "
+           "whose name has an upper-case letter is looked up under the wrong key (answers for the name it gave up, does "
+           "not defend the new one; three daemons can end with the same name); conflicts are never detected for instance "
+           "names with an escaped dot, and name_change would split such a name inside the label; see also "
+           "C07-host-rename-skips-reprobe (no re-probe after a lost tie-break followed by a host rename)")
 
 KNOWN = {21: "C08-rename-label-overflow-kills-daemon", 52: "C08-rename-label-overflow-kills-daemon",
          22: "C08-goodbye-uses-pre-rename-names", 23: "C08-direct-answer-uses-pre-rename-host",
